@@ -1027,6 +1027,16 @@ func mutatesReceiver(m *funcInfo) bool {
 	return found
 }
 
+func acquiresLock(p *prog, lock string) bool {
+	if p == nil {
+		return false
+	}
+	if p.kind == "acq" && p.lock == lock {
+		return true
+	}
+	return acquiresLock(p.a, lock) || acquiresLock(p.b, lock)
+}
+
 func acquiresW(p *prog) bool {
 	if p == nil {
 		return false
@@ -2127,7 +2137,17 @@ func main() {
 				exp, ok = lockingTable[fi.key()]
 			}
 			if !ok {
-				u.errs = append(u.errs, fmt.Sprintf("%s: method of a lock-owning type without an entry in the pinned locking table (expected use of %s: R, W, - or free)", fi.key(), l))
+				// an UNEXPORTED method that is not pinned and never takes the lock itself is a helper (typically extracted
+				// by a refactoring): it is inlined into its callers, whose own entries pin the mode; it is recorded as
+				// "never locks" so that it stays checked. Exported methods, and any method that acquires the lock, must
+				// be pinned explicitly.
+				if !ast.IsExported(fi.name) && !acquiresLock(fi.prog, l) {
+					exp, ok = "-", true
+				}
+			}
+			if !ok {
+				u.errs = append(u.errs, fmt.Sprintf("%s: method of a lock-owning type without an entry in the pinned locking table (expected use of %s: R, W, - or free); "+
+					"only unexported methods that never acquire the lock are defaulted", fi.key(), l))
 				continue
 			}
 			var term string
